@@ -65,15 +65,27 @@ def run_scenario(sc: dict[str, Any]) -> dict[str, Any]:
         if c['sharp']: kw['sharp'] = True
         if c['idle']: kw['idle'] = c['idle']
         if c['initdelay']: kw['initial_delay'] = c['initdelay']
+        toggles = sc.get('toggles') or []
+        if toggles:          # the timer is filtered by a label which the scenario takes away and gives back
+            kw['labels'] = {'tm': 'yes'}
         kopf.timer(GROUP, VERSION, PLURAL, **kw)(body)
         if sc.get('change_handlers', True):
             kopf.on.create(GROUP, VERSION, PLURAL, registry=reg, id='noop')(sim.handler('noop'))
             kopf.on.update(GROUP, VERSION, PLURAL, registry=reg, id='noop')(sim.handler('noop'))
         op = sim.operator('op1', reg, sim.settings(watching__reconnect_backoff=1))      # whole seconds also when a stream is reopened
         t0 = 1
-        sim.world.at(t0, lambda: sim.create('o1', {'x': 1}), 1)
+        sim.world.at(t0, lambda: sim.create('o1', {'x': 1}, labels={'tm': 'yes'} if toggles else None), 1)
         x = [1]
         edit_rvs: list[int] = []
+        off_rvs: list[int] = []; on_rvs: list[int] = []
+
+        def toggle(on):
+            if sim.obj('o1') is None: return
+            o = sim.edit('o1', lambda b: b['metadata'].setdefault('labels', {}).update(tm='yes' if on else 'no'))
+            rv = int(o['metadata']['resourceVersion'])
+            (on_rvs if on else off_rvs).append(rv)
+        for (t, on) in toggles:
+            sim.world.at(t, (lambda on=on: toggle(on)), 1)
 
         def edit():
             if sim.obj('o1') is None: return
@@ -117,6 +129,8 @@ def run_scenario(sc: dict[str, Any]) -> dict[str, Any]:
                 elif not sc.get('change_handlers', True) and rv != del_rv and e.get('type') not in (None, 'ADDED', 'DELETED'):
                     out.append({'ev': 'selfchange', 't': e['t']})          # an event that is not a user's change (the echo of an own patch)
                 if del_rv is not None and rv == del_rv: out.append({'ev': 'stop', 't': e['t']})
+                if rv in off_rvs: out.append({'ev': 'unmatch', 't': e['t']})
+                if rv in on_rvs: out.append({'ev': 'rematch', 't': e['t']})
             elif ev == 'quiet':
                 out.append({'ev': 'quiet', 't': e['t']})
                 break        # what follows is the harness stopping the operator (a running function is cancelled)
@@ -142,6 +156,11 @@ def gen_scenarios(seed: int, n: int) -> list[dict[str, Any]]:
                     'relist_changes': [changes.pop()] if changes and i % 4 == 3 else [],
                     'delete_at': rnd.choice([None, None, rnd.randint(5, 35)]), 'end': 60,
                     'sync': i % 5 == 2})
+        if i % 6 == 4:      # the object leaves the timer's filters (possibly in the middle of a run) and comes back
+            r2 = random.Random(f'timers-tog-{seed}-{i}')
+            t1 = r2.randint(3, 20); t2 = t1 + r2.choice([1, 2, 3, 6, 10])
+            out[-1]['toggles'] = [(t1, False), (t2, True)] + ([(t2 + r2.choice([2, 5]), False)] if r2.random() < 0.3 else [])
+            out[-1]['delete_at'] = None; out[-1]['relist_changes'] = []
     return out
 
 
